@@ -54,6 +54,16 @@ def main():
                 out = Path(o['out'])
                 dbg = Path(o['debug']) if o.get('debug') else None
                 if o.get('one_call'):
+                    if o.get('prior_run'):
+                        # an unrelated earlier API call in the same process, with the default io-device: a tiny program that
+                        # outputs 4 bits (half a byte) and halts.  Nothing of it may reach the next call.
+                        tiny = files[0].parent / 'prior_tiny.fj'
+                        tiny.write_text(';begin\n;0\nbegin:\n2*w+1;\n2*w;\n2*w+1;\n2*w;\nloop: ;loop\n')
+                        keep = out_capture.getvalue()
+                        flipjump.assemble_and_run([tiny], memory_width=o['w'], use_stl=False, print_time=False, print_termination=False)
+                        out_capture.seek(0)
+                        out_capture.truncate()
+                        out_capture.write(keep)
                     # the single-call API: assembles into a temporary file and runs it
                     flipjump.assemble_and_run(files, memory_width=o['w'], use_stl=o['use_stl'], fjm_version=FJMVersion(o['version']),
                                               warning_as_errors=o['werror'], print_time=not o['silent'], print_termination=not o['silent'])
